@@ -35,11 +35,11 @@ static inline std::string vec_str(const size_t* v, int r) { std::string s; for (
 // =====================================================================================================================
 enum Kind { K_RAW = 0, K_MAPT = 1, K_RESHAPE = 2, K_FLATTEN = 3, K_SQUEEZE = 4 };
 enum Op { O_SADD = 0, O_SSUB, O_SMUL, O_SDIV, O_TSET, O_TADD, O_TSUB, O_TMUL, O_TDIV, O_ESET, O_EADD, O_ESELF, O_EMUL, O_EL0, O_EL1, O_EL2,
-          O_VSET, O_VADD, O_VTENS, O_FSET, O_FSUB, O_FMUL, O_MSET, O_FILL, O_IOTA, O_ZEROS, O_ONES, O_EYE, O_RSUM, O_POKE, O_COUNT };
+          O_VSET, O_VADD, O_VTENS, O_FSET, O_FSUB, O_FMUL, O_MSET, O_FILL, O_IOTA, O_ZEROS, O_ONES, O_EYE, O_RSUM, O_ASSET, O_ASADD, O_ASSUB, O_ASMUL, O_POKE, O_COUNT };
 static const char* const OP_NAME[O_COUNT] = {
     "x+=3", "x-=2(int literal)", "x*=-2", "x/=2", "x=B", "x+=B", "x-=B", "x*=B", "x/=B", "x=B+C", "x+=B*C", "x=x-B", "x*=B+1", "x(first)=7", "x(last)=-7",
     "x(mid)=11", "x(seq..)=5", "x(seq..)+=Sub", "x(seq..)=Sub", "x(fseq..)=4", "x(fseq..)-=Sub", "x(fseq..)*=2", "x(mask)=9", "x.fill(3)", "x.iota(2)",
-    "x.zeros()", "x.ones()", "x.eye()", "x.sum()", "raw buffer write"};
+    "x.zeros()", "x.ones()", "x.eye()", "x.sum()", "x=map(x.data())", "x+=map(x.data())", "x-=map(x.data())", "x*=map(x.data())", "raw buffer write"};
 
 // the slice every view letter selects: per axis (lo,hi,step); the last axis is strided, the others drop their first index
 static constexpr int v_lo(size_t e, bool last) { return last ? 0 : (e > 1 ? 1 : 0); }
@@ -117,6 +117,11 @@ template <class T, size_t... d> struct Ops<T, Index<d...>> {
     template <class X> static FASTOR_INLINE void go(Tag<O_ONES>, X& x, const AX&, T*) { x.ones(); }
     template <class X> static FASTOR_INLINE void go(Tag<O_EYE>, X& x, const AX&, T*) { x.eye(); }
     template <class X> static FASTOR_INLINE void go(Tag<O_RSUM>, X& x, const AX&, T* res) { *res = x.sum(); }
+    // the right-hand side is a second map over the very storage the left-hand side names
+    template <class X> static FASTOR_INLINE void go(Tag<O_ASSET>, X& x, const AX&, T*) { TensorMap<T, d...> y(x.data()); x = y; }
+    template <class X> static FASTOR_INLINE void go(Tag<O_ASADD>, X& x, const AX&, T*) { TensorMap<T, d...> y(x.data()); x += y; }
+    template <class X> static FASTOR_INLINE void go(Tag<O_ASSUB>, X& x, const AX&, T*) { TensorMap<T, d...> y(x.data()); x -= y; }
+    template <class X> static FASTOR_INLINE void go(Tag<O_ASMUL>, X& x, const AX&, T*) { TensorMap<T, d...> y(x.data()); x *= y; }
 };
 
 // reference semantics of the letters on an owning row-major array
@@ -164,6 +169,10 @@ template <class T> static inline void ref_apply(int op, T* x, const SideInfo<T>&
         case O_ONES: for (size_t i = 0; i < n; ++i) x[i] = T(1); break;
         case O_EYE: { for (size_t i = 0; i < n; ++i) x[i] = T(0); for (size_t q = 0; q < s.ext[0]; ++q) { size_t o = 0; for (int i = 0; i < s.rank; ++i) o += q * st[i]; x[o] = T(1); } } break;
         case O_RSUM: { T a = T(0); for (size_t i = 0; i < n; ++i) a = a + x[i]; *res = a; } break;
+        case O_ASSET: break;
+        case O_ASADD: for (size_t i = 0; i < n; ++i) x[i] = x[i] + x[i]; break;
+        case O_ASSUB: for (size_t i = 0; i < n; ++i) x[i] = x[i] - x[i]; break;
+        case O_ASMUL: for (size_t i = 0; i < n; ++i) x[i] = x[i] * x[i]; break;
         case O_POKE: x[n / 3] = T(13); break;
     }
 }
@@ -205,6 +214,8 @@ template <class T, class Get, size_t... d, bool MASK_OK, int SEL> struct Reg<T, 
         C20_REG(O_FILL, true); C20_REG(O_IOTA, true); C20_REG(O_ZEROS, true); C20_REG(O_ONES, SEL == 0);
         C20_REG(O_EYE, (Uniform<d...>::value));
         C20_REG(O_RSUM, true);
+        // squares along a depth-3 history overflow int32 (undefined in the scalar reference) and leave the exact range of float: the product letter is double only
+        C20_REG(O_ASSET, SEL == 0); C20_REG(O_ASADD, true); C20_REG(O_ASSUB, SEL == 0); C20_REG(O_ASMUL, (SEL == 0 && std::is_same<T, double>::value));
 #undef C20_REG
     }
 };
